@@ -7,6 +7,7 @@ INVARIANT Total
 INVARIANT PrefixIsolation
 INVARIANT OnlyRegisteredIds
 INVARIANT AllListenersServed
+INVARIANT RegistryServed
 INVARIANT NothingWhenClosed
 INVARIANT TableOK
 INVARIANT TunOK
